@@ -12,6 +12,7 @@ import (
 // step executes one non-terminator instruction; returns the reach condition after it.
 func (ex *Exec) step(fr *frame, st *State, reach *Term, instr ssa.Instruction, exits *[]*exit) *Term {
 	vc := ex.vc
+	ex.curReach = reach
 	bind := func(v ssa.Value, val Value) {
 		if t, ok := val.(*Term); ok && len(t.Args) > 0 {
 			val = vc.Def(fr.fn.Name()+"."+v.Name(), t)
@@ -110,7 +111,7 @@ func (ex *Exec) step(fr *frame, st *State, reach *Term, instr ssa.Instruction, e
 			s := ex.term(fr, in.X)
 			ex.boundsCheck(fr, st, &reach, idx, vc.SliceLen(s), in)
 			c, cs := ex.sliceComp(xt.Elem())
-			fr.env[in] = &Addr{comp: c, compSort: cs, idx: []*Term{vc.SlicePtr(s), vc.Arith("+", vc.SliceOff(s), idx, types.Typ[types.Int])}, typ: xt.Elem()}
+			fr.env[in] = &Addr{comp: c, compSort: cs, idx: []*Term{vc.SlicePtr(s), vc.Arith("+", vc.SliceOff(s), idx, types.Typ[types.Int])}, typ: xt.Elem(), sliceOff: vc.SliceOff(s), sliceIdx: idx}
 		case *types.Pointer:
 			arr := xt.Elem().Underlying().(*types.Array)
 			r := ex.term(fr, in.X)
